@@ -3,10 +3,10 @@
 Require Extraction.
 Require Import ExtrOcamlBasic.
 From Quiver Require Import Types Rel Narrow RelProofs.
-From Quiver.front Require Import Totality.
+From Quiver.front Require Import Totality IntersectTermProofs.
 Extraction Language OCaml.
 Extraction "extracted/front_model.ml"
   new_registry register_tuple register_type lookup_type lookup_tuple
   current_cfg partial_cfg check_rel is_compatible_with types_overlap_with
   intersect_types compute_complement
-  topob ntypes rel_bound narrow_bound cc_bound rel_depth isect_depth compl_depth.
+  topob closed_tuplesb ntypes rel_bound narrow_bound cc_bound rel_depth isect_depth compl_depth.
